@@ -802,6 +802,114 @@ theorem C10_spool_content (co : Str → Str) (a : Accepted) (hwf : ∀ f ∈ a.h
   intro d hd
   exact this d (by simpa [run] using hd)
 
+/-- While recipients are pending the message stays in the spool, scheduled, with its files intact
+and the pending list in its metadata (invariant carried to the END of any history). -/
+theorem runFrom_pending {vis : Vis} {co : Str → Str} {a : Accepted} (hv : VisOK vis)
+    (hwf : ∀ f ∈ a.hdr, WFField f) (hs : EnvelopeSafe co a) (steps : List Step)
+    (hsteps : ∀ st ∈ steps, StepOK st) :
+    ∀ (to : List Str) (s : St), (∀ r ∈ to, co r = r) → Inv a to s →
+      pendingAfter to (attemptsOf steps) ≠ [] →
+      Inv a (pendingAfter to (attemptsOf steps)) (runFrom vis co s steps).1 := by
+  induction steps with
+  | nil =>
+    intro to s _ hi _
+    simpa [runFrom, attemptsOf, pendingAfter] using hi
+  | cons st rest ih =>
+    intro to s hsafe hi hp
+    have hrest : ∀ st ∈ rest, StepOK st := fun x hx => hsteps x (by simp [hx])
+    obtain ⟨d, hd, h1, h2, hag, h4⟩ := hi.disk
+    cases st with
+    | restart =>
+      have hstep : step vis co s .restart = ({ s with slot := none, scheduled := true }, []) := by
+        simp [step, hd]
+      have hi' : Inv a to { s with slot := none, scheduled := true } :=
+        ⟨rfl, ⟨d, hd, h1, h2, hag, h4⟩, by intro m h hc; simp at hc⟩
+      simp only [attemptsOf] at hp ⊢
+      have := ih hrest to _ hsafe hi' hp
+      simpa [runFrom, hstep] using this
+    | attempt acc next =>
+      have hok : ∀ r, r ∈ next to → r ∈ to := by
+        have := hsteps (.attempt acc next) (by simp)
+        exact fun r => this to r
+      have key : ∃ m, Agrees a to m ∧ step vis co s (.attempt acc next) = attempt vis co d m a.hdr acc next := by
+        cases hslot : s.slot with
+        | some mh =>
+          obtain ⟨m, h⟩ := mh
+          obtain ⟨hm, hh⟩ := hi.slot m h hslot
+          exact ⟨m, hm, by simp [step, hd, hi.sched, hslot, hh]⟩
+        | none =>
+          refine ⟨d.metaFile, hag, ?_⟩
+          simp [step, hd, hi.sched, hslot, h1, C10_header_roundtrip a.hdr hwf]
+      obtain ⟨m, hm, hstep⟩ := key
+      obtain ⟨_, _, hinv⟩ := attempt_spec hv hs hsafe h1 h2 hm acc next hok
+      simp only [attemptsOf, pendingAfter] at hp ⊢
+      by_cases hne : next to = []
+      · simp [hne] at hp
+      · simp only [hne, if_false] at hp ⊢
+        have hsafe' : ∀ r ∈ next to, co r = r := fun r hr => hsafe r (hok r hr)
+        have := ih hrest (next to) _ hsafe' (hinv hne) hp
+        simpa [runFrom, hstep] using this
+
+/-- **C10 (a pending message is not dropped).** The other half of "the target is handed the
+message for the recipients still pending": after ANY history of attempts and restarts (also a
+restart before the first attempt, also several in a row) - whatever the header, the body (empty
+included) and the envelope - as long as the last attempt that took place left somebody pending,
+the message is still in the spool and still scheduled, its header and body files are the accepted
+bytes, and its metadata lists exactly the pending recipients with the accepted sender.  Together
+with `C10_roundtrip` (the k-th attempt step of the history IS an attempt on the target while
+somebody is pending): a message leaves the spool only through an attempt that leaves nobody
+pending. -/
+theorem C10_pending_message_kept (co : Str → Str) (a : Accepted) (hwf : ∀ f ∈ a.hdr, WFField f)
+    (hs : EnvelopeSafe co a) (steps : List Step) (hsteps : ∀ st ∈ steps, StepOK st)
+    (hp : pendingAfter a.qmeta.to (attemptsOf steps) ≠ []) :
+    (run genVis co a steps).1.scheduled = true ∧
+    ∃ d, (run genVis co a steps).1.disk = some d ∧
+      d.hdrFile = writeHeader a.hdr ∧ d.bodyFile = a.body ∧
+      d.metaFile.to = pendingAfter a.qmeta.to (attemptsOf steps) ∧
+      d.metaFile.sender = a.qmeta.sender := by
+  have hi := runFrom_pending visOK_generated hwf hs steps hsteps a.qmeta.to _ hs.to
+    (accept_inv visOK_generated hs) hp
+  have hrun : (run genVis co a steps).1 = (runFrom genVis co (accept genVis co a).1 steps).1 := by
+    simp [run]
+  rw [hrun]
+  obtain ⟨d, hd, h1, h2, hag, _⟩ := hi.disk
+  exact ⟨hi.sched, d, hd, h1, h2, hag.to, hag.sender⟩
+
+/-- contrapositive: the spool entry is gone only when nobody is pending any more -/
+theorem C10_removed_only_when_done (co : Str → Str) (a : Accepted) (hwf : ∀ f ∈ a.hdr, WFField f)
+    (hs : EnvelopeSafe co a) (steps : List Step) (hsteps : ∀ st ∈ steps, StepOK st)
+    (hgone : (run genVis co a steps).1.disk = none) :
+    pendingAfter a.qmeta.to (attemptsOf steps) = [] := by
+  refine Classical.byContradiction fun hp => ?_
+  obtain ⟨_, d, hd, _⟩ := C10_pending_message_kept co a hwf hs steps hsteps hp
+  rw [hgone] at hd
+  cases hd
+
+/-- the number of attempts the target sees is the number of attempt steps up to and including the
+first one that leaves nobody pending (so: none is skipped while somebody is pending) -/
+theorem spec_length_of_pending (a : Accepted) :
+    ∀ (atts : List ((List Str → Bool) × (List Str → List Str))) (to : List Str),
+      pendingAfter to atts ≠ [] → (spec a to atts).length = atts.length := by
+  intro atts
+  induction atts with
+  | nil => intro to _; simp [spec]
+  | cons x rest ih =>
+    intro to hp
+    obtain ⟨acc, next⟩ := x
+    simp only [pendingAfter] at hp
+    by_cases hne : next to = []
+    · simp [hne] at hp
+    · simp only [hne, if_false] at hp
+      simp [spec, hne, ih (next to) hp]
+
+theorem C10_every_attempt_step_is_an_attempt (co : Str → Str) (a : Accepted)
+    (hwf : ∀ f ∈ a.hdr, WFField f) (hs : EnvelopeSafe co a) (steps : List Step)
+    (hsteps : ∀ st ∈ steps, StepOK st)
+    (hp : pendingAfter a.qmeta.to (attemptsOf steps) ≠ []) :
+    (seens (run genVis co a steps).2).length = (attemptsOf steps).length := by
+  rw [C10_roundtrip co a hwf hs steps hsteps]
+  exact spec_length_of_pending a _ _ hp
+
 theorem step_docs_no_conn (vis : Vis) (co : Str → Str) (s : St) (st : Step) :
     ∀ doc ∈ docs (step vis co s st).2, doc.msgMeta.conn = none := by
   intro doc hdoc
@@ -923,6 +1031,13 @@ without content, and ends with the message removed -/
 example : (seens (run (fun _ => true) exCo exAccepted exSteps).2).map (fun s => (s.to, s.content.isSome)) =
     [([3, 4, 5], true), ([3, 5], false), ([3], true)] := by decide
 example : (run (fun _ => true) exCo exAccepted exSteps).1.disk.isNone = true := by decide
+
+/-- `C10_pending_message_kept` is not vacuous: after a restart BEFORE the first attempt, the first
+attempt, two restarts and the second attempt of the example, recipient 3 is pending - and the model
+has the message in the spool with the EMPTY body it was accepted with -/
+example : pendingAfter exAccepted.qmeta.to (attemptsOf (.restart :: exSteps.take 4)) = [3] := by decide
+example : ((run (fun _ => true) exCo { exAccepted with body := [] } (.restart :: exSteps.take 4)).1.disk.map
+    fun d => (d.bodyFile, d.metaFile.to)) = some ([], [3]) := by decide
 
 /-- and the connection state (with the credentials 11, 12) is in memory for the first attempt only -/
 example : ((run (fun _ => true) exCo exAccepted exSteps).2.filterMap fun e =>
